@@ -26,10 +26,33 @@ PROVED = ['decompose_refuses [P]: p | (O : Z[theta]) => Panic other (the documen
           'above_p [P]: whenever decompose returns, every returned P_i is a lattice in normal form over the given table and contains p e_0 '
           '(the integer p when w_0 = 1), so P_i meet Z contains pZ; with C16 principal_is_ideal + add_is_ideal each P_i = (g_i(theta)) + (p) is an ideal',
           'degree_sum_partial [C]: the multiplicities returned are those of factorize_mod_p on the same draw stream (all draws are consumed there), and under the '
-          'model-evaluated flag factor_flag (every g_i non-zero canonical, e_i >= 0, prod g_i^e_i = f coefficientwise mod p): sum e_i deg g_i = deg f',
+          'model-evaluated flag factor_flag (every g_i non-zero canonical, e_i >= 0, prod g_i^e_i = f coefficientwise mod p): sum e_i deg g_i = deg f '
+          '(superseded by degree_sum)',
+          'companion_projection [P]: decompose is, outcome by outcome, the projection of decompose_full (a definition of the proof development that keeps the '
+          'mod-p factor g_i beside each (P_i, e_i)), for all inputs',
+          'degree_sum [P]: p prime, f monic with at most 2^64 coefficients, both profiles, every draw stream: whenever decompose returns, the (g_i, e_i) behind '
+          'the returned (P_i, e_i) are what factorize_mod_p returned on the same draws and sum e_i deg g_i = deg f (no flag; from C08 factorize_mod_p_product)',
+          'prime_above_proper [P]: p prime, f monic, b the n x n stored basis of an order with w_0 = 1 that contains Z[theta] (power basis = integer matrix * b), '
+          't = get_mult_table b f, ANY index prime to p (the test decompose performs), both profiles, every draw stream: every returned P_i is proper '
+          '(the coordinate vector of 1 is not in its lattice), cap_z P_i returns p, and Ideal::contains(P_i, 1) returns false in both profiles',
+          'primes_distinct [P]: same hypotheses: the returned ideals are pairwise different (NoDup of the stored normal forms); from g_i | g_j mod p whenever P_i = P_j '
+          'and C08 factorize_mod_p_irreducible (irreducible, pairwise distinct factors)',
+          'primes_prime [P]: same hypotheses: every returned P_i is a prime ideal of the order: proper, and a product (MultTable::mul) of two elements lies in P_i only if '
+          'one of them does (membership criterion: v in P_i iff g_i divides index * v modulo p; g_i irreducible by C08)',
+          'primes_comaximal [P]: same hypotheses: for two different positions i, j, whenever ideal_add(P_i, P_j) returns K (either profile), K contains every coordinate '
+          'vector (P_i + P_j is the whole order)',
+          'residue_degrees [P]: same hypotheses and b lower triangular (every stored basis is): Ideal::norm(P_i) returns p^(deg g_i), and sum e_i deg g_i = n: '
+          'the residue degrees read off the norms satisfy sum e_i f_i = n (any index prime to p)',
+          'decompose_no_panic [P]: p prime, f monic, b the stored basis of an order containing Z[theta] with its table, both profiles, every draw stream: the index '
+          'computation returns; p | index => the documented panic; otherwise decompose returns or the model runs out of the fuel of the randomised loop of the '
+          'factoriser -- never a panic (assert!(is_integer) of to_z_basis_int, the debug assertions of with_expr / principal / Add, every index and unwrap)',
           ]
-NOT_PROVED = ['primality of the P_i, norm P_i = p^f_i, prod P_i^e_i = (p), pairwise distinctness (Kummer-Dedekind theorem) -- oracle on every case',
-              'sum e_i f_i = n with f_i the residue degree read off the norm: only degree_sum_partial (degrees of the mod-p factors, under the product flag) -- oracle',
+NOT_PROVED = ['prod P_i^e_i = (p) (the product formula of the Kummer-Dedekind theorem) -- oracle on every case. It needs the hypothesis that the order is maximal at p, '
+              'which none of the theorems has: on Z[sqrt 5], p = 2 (index 1) the model and the code return P = (2, 1 + sqrt 5), e = 2 with P^2 <> (2) (Example ex_product_needs_maximal). '
+              'Proved of the P_i: ideal above p (above_p), '
+              'proper with P_i meet Z = pZ (prime_above_proper), prime ideal (primes_prime), pairwise distinct and comaximal (primes_distinct, primes_comaximal), '
+              'norm P_i = p^(deg g_i) and sum e_i deg g_i = n (residue_degrees)',
+              'termination of the Cantor-Zassenhaus loop (probability 1 only, C08): decompose_no_panic leaves the alternative OutOfFuel of the model',
               'no Panic for p >= 2^64: refuted on the unchanged tree (D4), fixed in /repo; covered by the p = nextprime(2^64) cases']
 ASSUMPTIONS = ['the maximal orders are inputs (stored bases from the implementation\'s find_integral_basis, property C06)',
                'the oracle takes the number of primes above p and their (f_i, e_i) from the Kummer-Dedekind theorem applied to its own '
@@ -38,10 +61,14 @@ ASSUMPTIONS = ['the maximal orders are inputs (stored bases from the implementat
 CLAIM = dict(
     technique='Coq proof about the Gallina model of prime_decomp::decompose (on top of the models of C08, C14, C15, C16) + extracted-model-vs-implementation correspondence with replayed random draws + independent lattice oracle + CLI run',
     text='For all inputs and all draw streams: p | index => the documented panic and nothing returned (decompose_refuses); every returned ideal lies above p '
-         '(above_p). The model (coq/Model/PrimeDecomp.v) reproduces simple::decompose statement by statement: the index test with the documented panic, '
-         'the conversion of p to usize (0 when it does not fit), factorize_mod_p on the logged draw stream, and per factor the '
-         'degree branch, to_z_basis_int, the two principal ideals and their sum.',
-    note='primality, norms, the product formula and the degree sum are checked by the independent oracle on every explored input, not proved (Kummer-Dedekind)',
+         '(above_p). For p prime, f monic, the table of an order with w_0 = 1 containing Z[theta], any index prime to p: the (g_i, e_i) behind the returned (P_i, e_i) '
+         'are the output of factorize_mod_p on the same draws and sum e_i deg g_i = n (degree_sum, unconditional); every P_i is proper with cap_z P_i = p '
+         '(prime_above_proper); every P_i is a prime ideal of the order (primes_prime); the P_i are pairwise distinct and comaximal (primes_distinct, primes_comaximal); for a lower triangular stored basis norm P_i = p^(deg g_i) (residue_degrees); on such inputs decompose never panics when p does not divide the index (decompose_no_panic). decompose_full, the run with the factor kept beside each ideal, is a definition of the '
+         'proof development proved to project onto decompose outcome by outcome (companion_projection). The model (coq/Model/PrimeDecomp.v) reproduces simple::decompose '
+         'statement by statement: the index test with the documented panic, the conversion of p to usize (0 when it does not fit), factorize_mod_p on the logged draw '
+         'stream, and per factor the degree branch, to_z_basis_int, the two principal ideals and their sum.',
+    note='the product formula prod P_i^e_i = (p) is checked by the independent oracle on every explored input, not proved '
+         '(Kummer-Dedekind); that the order contains Z[theta] (an integer matrix Sl with Sl * b = identity) is a hypothesis of prime_above_proper / primes_prime / primes_distinct / primes_comaximal',
     ref='DESIGN.md section 4, C17')
 
 # ---------------------------------------------------------------- oracle
